@@ -203,7 +203,10 @@ def concretize(ctx, behs, enabled, scan=False, phrase_len=None):
 
 def judge(ctx, events, tag, cfgev=None):
     """Annotate, validate against TraceXCrypt, record violations.  Returns verdict."""
-    evs = [cfgev or config_event(ctx)] + events
+    cfgev = cfgev or config_event(ctx)
+    if len(events) > 30000 and not any(e.get(k) for e in events for k in ("hprev", "bprev", "yprev")):
+        return judge_chunked(ctx, events, tag, cfgev)
+    evs = [cfgev] + events
     # shift: annotate works on 1-based positions in the final list
     annotate(evs)
     v = ctx.validate_trace(evs, tag=tag)
@@ -215,6 +218,48 @@ def judge(ctx, events, tag, cfgev=None):
         ev = evs[x["l"] - 1]
         ctx.violation(x["p"], "%s failed at call %d (%s)" % (x["n"], x["l"], ev.get("e")), compact(ev, evs))
     return v
+
+
+def judge_chunked(ctx, events, tag, cfgev, size=20000):
+    """large traces: validated in parallel pieces (relations between events are kept within a piece)"""
+    pieces, cur = [], []
+    for e in events:
+        cur.append(e)
+        if len(cur) >= size and e.get("e") in ("Reset",) or len(cur) >= size * 2:
+            pieces.append(cur); cur = []
+        elif len(cur) >= size and "ph" in e and not e.get("kprev_keep"):
+            pieces.append(cur); cur = []
+    if cur:
+        pieces.append(cur)
+    chunks = []
+    for pc in pieces:
+        # each piece restarts from unknown object states: re-create the objects it uses is not possible, so the
+        # first call on each object in a piece is preceded by a synthetic scribble (unknown contents)
+        seen = set()
+        out = [cfgev]
+        for e in pc:
+            if "o" in e and "ph" in e and e["o"] not in seen:
+                seen.add(e["o"])
+                out.append({"e": "obj", "o": e["o"], "al": 0, "fill": 0 if (e.get("prezero") and e.get("szero")) else 1})
+            elif e.get("e") == "obj":
+                seen.add(e["o"])
+            out.append(e)
+        for e in out:
+            e.pop("kprev", None)
+        annotate(out)
+        chunks.append(out)
+    vs = ctx.validate_many(chunks, "TraceXCrypt.tla", "TraceXCrypt.cfg", tag, par=8)
+    tot = {"viol": [], "div": [], "cnt": {"calls": 0, "ok": 0, "failed": 0, "faulted": 0}, "tlc": {"distinct": 0, "generated": 0}}
+    for v, ch in zip(vs, chunks):
+        for x in v["viol"]:
+            ev = ch[x["l"] - 1]
+            ctx.violation(x["p"], "%s failed at call %d (%s)" % (x["n"], x["l"], ev.get("e")), compact(ev))
+        for k in tot["cnt"]:
+            tot["cnt"][k] += v["cnt"][k]
+        tot["div"] += v["div"]
+        tot["tlc"]["distinct"] += v["tlc"].get("distinct", 0)
+        tot["tlc"]["generated"] += v["tlc"].get("generated", 0)
+    return tot
 
 
 def compact(ev, evs=None):
@@ -803,7 +848,7 @@ def c10(ctx):
     rng = ctx.rng
     E = cfgev["E"]
     cmds = ["entropy 0 %d" % (ctx.seed % 200 + 1), "hset 0 0 0"]
-    nrs = [None, 0, 2, 3, 8, 15, 16, 20, 32, 64, 65, 256] if quick else [None] + list(range(0, 70)) + [100, 128, 255, 256]
+    nrs = [None, 0, 2, 3, 8, 15, 16, 20, 32, 64, 65, 256] if quick else [None] + list(range(0, 25)) + [32, 33, 48, 63, 64, 65, 66, 100, 128, 255, 256]
     counts = [0, 1, 4, 5, 6, 11, 12, 31, 32, 1000, 5000, 99999, 16777215, 16777216, 999999999, 4294901759, 4294901760, 4294967295,
               2 ** 32, 2 ** 64 - 1] if quick else GS_COUNTS_ALL
     for pfx in GS_PREFIXES:
@@ -973,8 +1018,8 @@ def c13(ctx):
     cfgev = config_event(ctx)
     rng = ctx.rng
     prefixes = [gen.PREFIX[m] for m in gen.METHODS if gen.PREFIX[m]] + ["", None, "$9$"]
-    counts = [0, 1000, 5, 999999999] if quick else [0, 1, 4, 6, 11, 12, 999, 1000, 1001, 9999, 10000, 99999, 100000, 999999999, 2 ** 32, 2 ** 64 - 1]
-    nrs = [None, 3, 16, 64] if quick else [None, 0, 1, 2, 3, 4, 6, 8, 9, 15, 16, 17, 20, 32, 48, 64, 65, 128, 256]
+    counts = [0, 1000, 5, 999999999] if quick else [0, 1, 5, 11, 12, 1000, 1001, 99999, 100000, 999999999, 2 ** 64 - 1]
+    nrs = [None, 3, 16, 64] if quick else [None, 0, 2, 3, 8, 15, 16, 20, 64, 65, 256]
     sizes = [192] + [s for s in range(-2, 257) if s != 192] + ([] if quick else [300, 1000, 4096])
     cmds = ["entropy 0 7"]
     n = 0
@@ -1173,7 +1218,7 @@ def c03(ctx):
             pert = []
             edges = {0, 6, 7, 8, 9, 15, 16, 63, 64, 70, 71, 72, 73, 126, 127, 128, 129, n - 2, n - 1}
             for pos in range(n):
-                bits = range(8) if (pos in edges or not quick) and m not in ("scrypt",) else [rng.randrange(8)]
+                bits = range(8) if pos in edges and m not in ("scrypt",) else ([rng.randrange(8)] if quick else rng.sample(range(8), 2))
                 if quick and pos not in edges and n > 100 and pos % 3:
                     continue
                 for b in bits:
